@@ -10,7 +10,8 @@ pub mod atomic {
         // unspecified (interior mutability; C20 is not applicable)
         pub uninterp spec fn g_val(&self) -> u64;
         #[verifier::external_body] pub fn new(v: u64) -> (r: AtomicU64) ensures r.g_val() == v { unimplemented!() }
-        #[verifier::external_body] pub fn load(&self, o: Ordering) -> u64 { unimplemented!() }
+        // ASSUMED: used as a plain cell (no store between the exclusive write and this load on the writer side)
+        #[verifier::external_body] pub fn load(&self, o: Ordering) -> (r: u64) ensures r == self.g_val() { unimplemented!() }
         #[verifier::external_body] pub fn store(&self, v: u64, o: Ordering) { unimplemented!() }
         #[verifier::external_body] pub fn get_mut(&mut self) -> (r: &mut u64)
             ensures *r == old(self).g_val(), final(self).g_val() == *final(r) { unimplemented!() }
